@@ -143,6 +143,8 @@ structure Item where
   id : String
   ens : String
   fault : Option ErrClass
+  /-- the loader reports the fault through handleError and, when that returns, keeps the item (an input of unknown semantic) -/
+  soft : Bool := false
 deriving DecidableEq, Repr
 
 structure DocState where
@@ -211,7 +213,8 @@ def loadLib (ns : String) (mask : List ErrClass) :
     else match it.fault with
       | none => loadLib ns mask rest (ids ++ [(it.lib, it.id)], errs)
       | some e =>
-        if masked mask e then loadLib ns mask rest (ids, errs ++ [e])
+        if masked mask e then
+          loadLib ns mask rest (if it.soft then ids ++ [(it.lib, it.id)] else ids, errs ++ [e])
         else .error e
 
 /-- the loaders in `loadOrder`, each over its own library's children -/
